@@ -738,6 +738,10 @@ func NewQueryFromProto(p *pb.QueryProto) (Query, error) {
 	switch q := p.Query.(type) {
 	case *pb.QueryProto_All:
 		return All{}, nil
+	case *pb.QueryProto_Empty:
+		return Empty{}, nil
+	case *pb.QueryProto_IsValid:
+		return IsValid{}, nil
 	case *pb.QueryProto_Keyed:
 		return Keyed{q.Keyed}, nil
 	case *pb.QueryProto_Tagged:
@@ -754,6 +758,12 @@ func NewQueryFromProto(p *pb.QueryProto) (Query, error) {
 		return IntersectsPolyline{PolylineProtoToS2Polyline(q.IntersectsPolyline)}, nil
 	case *pb.QueryProto_IntersectsMultiPolygon:
 		return IntersectsMultiPolygon{MultiPolygon: MultiPolygonProtoToS2MultiPolygon(q.IntersectsMultiPolygon)}, nil
+	case *pb.QueryProto_IntersectsCells:
+		cells := make([]s2.Cell, len(q.IntersectsCells.GetS2CellIDs()))
+		for i, id := range q.IntersectsCells.GetS2CellIDs() {
+			cells[i] = s2.CellFromCellID(s2.CellID(id))
+		}
+		return IntersectsCells{Cells: cells}, nil
 	case *pb.QueryProto_Typed:
 		if q.Typed.Query != nil {
 			child, err := NewQueryFromProto(q.Typed.Query)
